@@ -125,18 +125,6 @@ Proof.
   pose proof (Z.mod_pos_bound ts d Hd). lia.
 Qed.
 
-(* a duration of whole milliseconds: the printed divisor denotes the range in seconds *)
-Definition whole_ms (d : Z) : Prop := d mod 1000000 = 0.
-Lemma secs_ms_exact d : 0 < d -> whole_ms d -> secs_of_ms (dur_ms d) = secs_exact d.
-Proof.
-  intros Hd Hw. unfold secs_of_ms, secs_exact, qfrac, dur_ms.
-  apply Qc_is_canon. cbn [this Q2Qc]. rewrite !Qred_correct.
-  unfold Qeq. cbn [Qnum Qden].
-  rewrite (Z.quot_div_nonneg d 1000000) by lia.
-  unfold whole_ms in Hw. pose proof (Z.div_mod d 1000000 ltac:(lia)) as E. rewrite Hw in E.
-  change (Z.pos 1000000000) with (1000 * 1000000). change (Z.pos 1000) with 1000. lia.
-Qed.
-
 (* ================= the LRA stage ================= *)
   Lemma lmap_eqb_eq a : forall b, lmap_eqb a b = true <-> a = b.
   Proof.
@@ -170,20 +158,20 @@ Qed.
   Proof. unfold bytes_of. rewrite !map_map. reflexivity. Qed.
 
   Lemma lra_value_group f d v (g : list mrow) :
-    0 < d -> whole_ms d -> lra_val_of f d = Some v ->
+    0 < d -> lra_val_of f d = Some v ->
     range_fn f d (map entry_of g) = Some (eval_lra v (map (fun r => set_ts (bucket_sql_z d (r_ts r)) r) g)).
   Proof.
-    intros Hd Hw Hv. destruct f; cbn in Hv; try discriminate; inversion Hv; subst v; cbn [range_fn eval_lra];
-      rewrite ?map_set_ts_len, ?bytes_set_ts, ?secs_ms_exact by assumption; unfold qlen; rewrite ?map_length; reflexivity.
+    intros Hd Hv. destruct f; cbn in Hv; try discriminate; inversion Hv; subst v; cbn [range_fn eval_lra];
+      rewrite ?map_set_ts_len, ?bytes_set_ts; unfold qlen; rewrite ?map_length; reflexivity.
   Qed.
 
   Theorem lra_stage f d v rows :
-    consistent rows -> nonneg rows -> 0 < d -> whole_ms d -> lra_val_of f d = Some v ->
+    consistent rows -> nonneg rows -> 0 < d -> lra_val_of f d = Some v ->
     ref_range f d (map entry_of rows) = Some (map strip (sem_lra v d rows)).
   Proof.
-    intros Hc Hn Hd Hw Hv. unfold ref_range.
+    intros Hc Hn Hd Hv. unfold ref_range.
     assert (E0 : range_fn f d [] <> None).
-    { pose proof (lra_value_group f d v [] Hd Hw Hv) as E. cbn in E. congruence. }
+    { pose proof (lra_value_group f d v [] Hd Hv) as E. cbn in E. congruence. }
     destruct (range_fn f d []) eqn:Er; [|congruence]. f_equal.
     unfold sem_lra. rewrite (group_by_pull entry_of (same_lbl_ts_e d) rows).
     rewrite (group_by_pull (fun r => set_ts (bucket_sql_z d (r_ts r)) r) same_fp_ts rows).
@@ -192,7 +180,7 @@ Qed.
     2:{ intros a b Ha Hb. unfold same_fp_ts, same_lbl_ts_e. cbn.
         rewrite (fp_labels_eqb rows a b Hc Ha Hb), !bucket_sql_is_bucket by (try apply Hn; assumption). reflexivity. }
     rewrite !map_map. apply map_ext_in. intros g Hg.
-    rewrite (lra_value_group f d v g Hd Hw Hv).
+    rewrite (lra_value_group f d v g Hd Hv).
     unfold strip, agg_row. cbn. destruct g as [|r g']; cbn.
     - unfold bucket. reflexivity.
     - rewrite bucket_sql_is_bucket; [reflexivity| |exact Hd].
@@ -430,10 +418,10 @@ Section STAGES.
 
   Definition pair_ts (d : Z) (r : mrow) : mrow * Z := (set_ts (bucket_sql_z d (r_ts r)) r, r_ts r).
   Lemma uw_value_group f d v (g : list mrow) :
-    0 < d -> whole_ms d -> uw_val_of f d = Some v ->
+    0 < d -> uw_val_of f d = Some v ->
     urange_fn varpop stddevpop f d (map (fun u => (u_ts u, u_val u)) (map u_of g)) = Some (eval_uw varpop stddevpop v (map (pair_ts d) g)).
   Proof.
-    intros Hd Hw Hv.
+    intros Hd Hv.
     assert (Evals : map snd (map (fun u => (u_ts u, u_val u)) (map u_of g)) = map (fun x => r_val (fst x)) (map (pair_ts d) g)).
     { rewrite !map_map. reflexivity. }
     assert (Emin : match argmin_ts fst (map (fun u => (u_ts u, u_val u)) (map u_of g)) with Some x => snd x | None => qz 0 end =
@@ -445,7 +433,7 @@ Section STAGES.
     { rewrite !map_map. rewrite (argmax_map (fun x => (u_ts (u_of x), u_val (u_of x))) r_ts fst g) by reflexivity.
       rewrite (argmax_map (pair_ts d) r_ts snd g) by reflexivity. destruct (argmax_ts r_ts g); reflexivity. }
     destruct f; cbn in Hv; try discriminate; inversion Hv; subst v; cbn [urange_fn eval_uw];
-      rewrite ?Evals, ?Emin, ?Emax, ?secs_ms_exact by assumption; reflexivity.
+      rewrite ?Evals, ?Emin, ?Emax; reflexivity.
   Qed.
 
   Lemma same_pair_eq d rows a b : consistent rows -> nonneg rows -> 0 < d -> In a rows -> In b rows ->
@@ -456,12 +444,12 @@ Section STAGES.
   Qed.
 
   Theorem uwfn_stage f d v rows :
-    consistent rows -> nonneg rows -> 0 < d -> whole_ms d -> uw_val_of f d = Some v ->
+    consistent rows -> nonneg rows -> 0 < d -> uw_val_of f d = Some v ->
     ref_urange varpop stddevpop f d (map u_of rows) = Some (map strip (sem_uwfn varpop stddevpop v d rows)).
   Proof.
-    intros Hc Hn Hd Hw Hv. unfold ref_urange.
+    intros Hc Hn Hd Hv. unfold ref_urange.
     assert (E0 : urange_fn varpop stddevpop f d [] <> None).
-    { pose proof (uw_value_group f d v [] Hd Hw Hv) as E. cbn in E. congruence. }
+    { pose proof (uw_value_group f d v [] Hd Hv) as E. cbn in E. congruence. }
     destruct (urange_fn varpop stddevpop f d []) eqn:Er; [|congruence]. f_equal.
     unfold sem_uwfn. rewrite (group_by_pull u_of (same_u d) rows).
     change (map (fun r => (set_ts (bucket_sql_z d (r_ts r)) r, r_ts r)) rows) with (map (pair_ts d) rows).
@@ -469,7 +457,7 @@ Section STAGES.
     rewrite (group_by_ext (fun x y => same_fp_ts2 (pair_ts d x) (pair_ts d y)) (fun x y => same_u d (u_of x) (u_of y)) rows)
       by (intros a b Ha Hb; now apply (same_pair_eq d rows)).
     rewrite !map_map. apply map_ext_in. intros g Hg.
-    rewrite (uw_value_group f d v g Hd Hw Hv).
+    rewrite (uw_value_group f d v g Hd Hv).
     unfold strip, agg_row. cbn. destruct g as [|r g']; cbn.
     - unfold bucket. reflexivity.
     - rewrite bucket_sql_is_bucket; [reflexivity| |exact Hd]. apply Hn. eapply group_members; [exact Hg|now left].
@@ -920,7 +908,7 @@ Section CHAIN.
       cbn [app apply_mfns apply_mfn]; apply apply_cmp.
   Qed.
 
-  Definition dur_ok (d : Z) : Prop := 0 < d /\ whole_ms d.
+  Definition dur_ok (d : Z) : Prop := 0 < d.
 
   (* the rows a range aggregation yields from the rows leaving the log pipeline *)
   Theorem lra_chain_correct c base lj l spl ppl simple i lji fpp cur :
@@ -932,7 +920,7 @@ Section CHAIN.
     | None => ref_lra to_float varpop stddevpop l (map entry_of base) = None
     end.
   Proof.
-    intros Hp Hl Espl Hcur [Hd Hw] Hc Hn. unfold lra_chain, ref_lra.
+    intros Hp Hl Espl Hcur Hd Hc Hn. unfold lra_chain, ref_lra. unfold dur_ok in Hd.
     rewrite sem_cmp_opt, unwrap_label_last, last_is_unwrap_last, Hp.
     pose proof (plan_spl_nmh _ _ _ _ _ _ _ _ Espl Hcur) as Hnm.
     assert (Ebool : match last_st ppl with Some (PUnwrap _) => true | _ => false end =
@@ -945,7 +933,7 @@ Section CHAIN.
         pose proof (shape_consistent _ _ S0 Hc) as Hc0. pose proof (shape_nonneg _ _ S0 Hn) as Hn0.
         rewrite <- (shape_entries _ _ S0).
         destruct (lra_val_of (lra_f l) (lra_dur_ns l)) as [v|] eqn:Ev; cbn [option_map].
-        - rewrite (lra_stage _ _ v rows0 Hc0 Hn0 Hd Hw Ev), cmp_rows_ref.
+        - rewrite (lra_stage _ _ v rows0 Hc0 Hn0 Hd Ev), cmp_rows_ref.
           destruct (sem_lra_inv fp fp_inj v (lra_dur_ns l) rows0 Hc0 Hn0 Hd) as [Hc1 Hn1].
           destruct (cmp_rows_inv (lra_cmp l) _ Hc1 Hn1). auto.
         - unfold ref_range. destruct (lra_f l); cbn in Ev; try discriminate; reflexivity. }
@@ -965,7 +953,7 @@ Section CHAIN.
     destruct Hinv as [Hc1 Hn1].
     rewrite <- (maybe_bw_u fp to_float g rows0 label). fold rows1.
     destruct (uw_val_of (lra_f l) (lra_dur_ns l)) as [v|] eqn:Ev; cbn [option_map].
-    - rewrite (uwfn_stage varpop stddevpop _ _ v rows1 Hc1 Hn1 Hd Hw Ev), cmp_rows_ref.
+    - rewrite (uwfn_stage varpop stddevpop _ _ v rows1 Hc1 Hn1 Hd Ev), cmp_rows_ref.
       destruct (sem_uwfn_inv fp varpop stddevpop fp_inj v (lra_dur_ns l) rows1 Hc1 Hn1 Hd) as [Hc2 Hn2].
       destruct (cmp_rows_inv (lra_cmp l) _ Hc2 Hn2). auto.
     - unfold ref_urange. destruct (lra_f l); cbn in Ev; try discriminate; reflexivity.
@@ -1174,8 +1162,6 @@ Section CHAIN.
     intros H. rewrite unwrap_label_last. destruct (last_st (sel_pipeline (lra_sel l))) as [st|] eqn:E; [|reflexivity].
     apply last_st_in in E. rewrite forallb_forall in H. apply H in E. destruct st; try reflexivity. discriminate.
   Qed.
-  Lemma whole_ms_15 k : whole_ms (15000000000 * k).
-  Proof. unfold whole_ms. replace (15000000000 * k) with (15000 * k * 1000000) by lia. apply Z.mod_mul. lia. Qed.
 
   Lemma m15_lra_correct c base fpp l :
     (match lra_f l with FRate | FCountOverTime => true | _ => false end) = true ->
@@ -1192,7 +1178,7 @@ Section CHAIN.
     destruct Hv as [v [Ev El]]. rewrite Ev. cbn [option_map]. unfold sem_m15_rows.
     rewrite Hd in *. rewrite (shortcut_value_correct v k base Hn Hk).
     assert (Hpos : 0 < 15000000000 * k) by lia.
-    rewrite (lra_stage _ _ _ base Hc Hn Hpos (whole_ms_15 k) El), cmp_rows_ref.
+    rewrite (lra_stage _ _ _ base Hc Hn Hpos El), cmp_rows_ref.
     destruct (sem_lra_inv fp fp_inj (m15_as_lra v) _ base Hc Hn Hpos) as [Hc1 Hn1].
     destruct (cmp_rows_inv (lra_cmp l) _ Hc1 Hn1). eauto.
   Qed.
@@ -1250,7 +1236,7 @@ Example metric_correct_hyp :
   analyze_m15 ex_script = false /\ (exists p, plan_metric ex_script true = Some p) /\ script_ok ex_script /\
   consistent ex_base /\ nonneg ex_base.
 Proof.
-  split; [reflexivity|]. split; [eexists; reflexivity|]. split; [split; [reflexivity|reflexivity]|]. split.
+  split; [reflexivity|]. split; [eexists; reflexivity|]. split; [reflexivity|]. split.
   - intros a b [<-|[<-|[]]] [<-|[<-|[]]]; cbn; split; congruence.
   - intros a [<-|[<-|[]]]; cbn; lia.
 Qed.
